@@ -199,6 +199,41 @@ def run(ctx, out):
             sy = x.write_yaml(**o)
             if not isinstance(sy, str) or P.from_yamls(sy) != x:
                 out.violation('C19:returned-string:yaml', f'write_yaml({o}) / from_yamls round trip failed: {sy!r}', {'options': repr(o)})
+        # string round trips for several shapes of document: text ending in a newline as the LAST scalar (block styles), a single
+        # key whose value spans several lines, leading / trailing blank text, one-line documents; every option set
+        import typing as t
+
+        class Note(pane.PaneBase):
+            title: str
+            body: str
+
+        class Wrapper(pane.PaneBase):
+            limits: t.Dict[str, int]
+
+        class Deep(pane.PaneBase):
+            inner: Wrapper
+            notes: t.List[Note] = pane.field(default_factory=list)
+        shapes = [Note('t', 'line 1\nline 2\n'), Note('t', '  indented\n\n'), Note('', '\n'), Wrapper({'a': 1, 'b': 2}), Wrapper({}),
+                  Deep(Wrapper({'a': 1}), [Note('x', 'y\n')]), Deep(Wrapper({'k': 0}))]
+        for o in yaml_opts + [dict(default_style='>'), dict(default_style='|', explicit_end=True), dict(default_flow_style=False, explicit_start=False)]:
+            for v in shapes:
+                n += 1
+                try:
+                    sy = v.write_yaml(**o)
+                    back = type(v).from_yamls(sy)
+                    back2 = pio.from_yaml(io.StringIO(sy), type(v))
+                except Exception as e:
+                    out.violation(f'C19:returned-string:yaml:{type(e).__name__}', f'{v!r}.write_yaml({o}) / from_yamls: {type(e).__name__}: {str(e)[:200]}', {'options': repr(o), 'value': repr(v)})
+                    continue
+                if back != v or back2 != v:
+                    out.violation('C19:returned-string:yaml', f'{v!r}.write_yaml({o}) = {sy!r} reads back as {back!r} through from_yamls and {back2!r} through from_yaml on a stream',
+                                  {'options': repr(o), 'value': repr(v)})
+        for o in json_opts:
+            for v in shapes:
+                n += 1
+                sj = v.write_json(**o)
+                if type(v).from_jsons(sj) != v:
+                    out.violation('C19:returned-string:json', f'{v!r}.write_json({o}) / from_jsons round trip failed: {sj!r}', {'options': repr(o)})
         n += 1
         multi = '\n'.join(P(i, f'n{i}').write_yaml(explicit_start=True) for i in range(4))
         ys = P.from_yaml_all(io.StringIO(multi))
